@@ -50,8 +50,9 @@ namespace {
         verif::heap_bytes                     store;   // filled with 0xAA
         pdu_ring_buffer< Size, Buffer, Layout > ring;
         std::size_t                           last_off, last_n;
+        bool                                  have;    // an allocation is outstanding: the last alloc succeeded and was not committed yet
 
-        ring_subject() : store( Size ), ring( store.p ), last_off( 0 ), last_n( 0 ) {}
+        ring_subject() : store( Size ), ring( store.p ), last_off( 0 ), last_n( 0 ), have( false ) {}
 
         std::string num( std::size_t v ) { return std::to_string( v ); }
 
@@ -79,10 +80,12 @@ namespace {
             {
                 const std::size_t n = std::stoul( w[ 1 ] );
                 const Buffer b = ring.alloc_front( buffer, n );
-                if ( b.size == 0 && b.buffer == nullptr ) return "none";
-                last_off = static_cast< std::size_t >( b.buffer - buffer ); last_n = b.size;
+                if ( b.size == 0 && b.buffer == nullptr ) { have = false; return "none"; }
+                last_off = static_cast< std::size_t >( b.buffer - buffer ); last_n = b.size; have = true;
                 return "a " + num( last_off ) + " " + num( last_n );
             }
+            // a client neither fills nor commits a buffer it did not get
+            if ( ( o == "w" || o == "push" || o == "pushn" ) && !have ) return "skip";
             if ( o == "w" || o == "wabs" )
             {
                 const std::size_t off = ( o == "w" ? last_off : 0 ) + std::stoul( w[ 1 ] );
@@ -91,8 +94,8 @@ namespace {
                 if ( !bytes.empty() ) std::memcpy( buffer + off, bytes.data(), bytes.size() );
                 return "-";
             }
-            if ( o == "push" ) return do_push( last_off, last_n );
-            if ( o == "pushn" ) return do_push( last_off, std::stoul( w[ 1 ] ) );
+            if ( o == "push" ) { have = false; return do_push( last_off, last_n ); }
+            if ( o == "pushn" ) { have = false; return do_push( last_off, std::stoul( w[ 1 ] ) ); }
             if ( o == "pushabs" ) return do_push( std::stoul( w[ 1 ] ), std::stoul( w[ 2 ] ) );
             if ( o == "peek" )
             {
@@ -104,7 +107,7 @@ namespace {
             }
             if ( o == "pop" ) { ring.pop_end( buffer ); return "-"; }
             if ( o == "more" ) return ring.more_than_one() ? "1" : "0";
-            if ( o == "reset" ) { ring.reset( buffer ); return "-"; }
+            if ( o == "reset" ) { ring.reset( buffer ); have = false; return "-"; }
             if ( o == "dump" ) return "d " + verif::hex_of_bytes( buffer, Size );
             if ( o == "st" ) return "s " + num( static_cast< std::size_t >( ring.front_ - buffer ) ) + " " + num( static_cast< std::size_t >( ring.end_ - buffer ) );
             return "BADOP";
